@@ -140,3 +140,26 @@ def facts(repo):
             out.append(Obligation('lexer:%s.quantifier%d.deterministic' % (nm, j), 'regex', [],
                                   z3.Not(z3.And(z3.InRe(x, body_first), z3.InRe(x, follow_first))), {}))
     return out
+
+
+def json_facts(repo):
+    """the output of json.dumps (assumed language, T4) is exactly one STRING token for the lexer"""
+    from . import external
+    pats, orders = load_patterns(repo)
+    string = rx.from_python(pats['STRING'], verbose=True)
+    x = z3.String('x')
+    out = []
+
+    def empty(name, r):
+        out.append(Obligation('json:' + name, 'regex', [], z3.Not(z3.InRe(x, r)), {}))
+    dumped = external.json_dumps_ascii_re()
+    empty('dumps-output-is-a-STRING', z3.Intersect(dumped, z3.Complement(string)))
+    empty('dumps-output-has-no-line-break-or-blank-but-space',
+          z3.Intersect(dumped, z3.Concat(any_star(), rx.char_class('\t\r\n\x0b\x0c\x85\u2028\u2029'), any_star())))
+    empty('dumps-output-is-documented-String', z3.Intersect(dumped, z3.Complement(documented()['STRING'])))
+    # the token does not end early: no proper prefix of a dumped string is itself a STRING
+    empty('dumps-output-not-cut', z3.Intersect(z3.Concat(string, z3.Plus(z3.AllChar(RE))), dumped))
+    # evaluating: a JSON string literal starts and ends with a quote (type STRING iff quoted)
+    empty('json-string-is-quoted', z3.Intersect(external.json_string_re(),
+                                                z3.Complement(z3.Concat(rx.ch('"'), any_star(), rx.ch('"')))))
+    return out
